@@ -18,7 +18,7 @@ TRUSTED_VALUES = [
 
 def hvalues(args, inp=None, timeout=900):
     p = subprocess.run([os.path.join(BIN, "h_values")] + args, cwd=REPO, env=vcheck.goenv(), input=inp,
-                       stdout=subprocess.PIPE, stderr=subprocess.PIPE, timeout=timeout, text=True)
+                       stdout=subprocess.PIPE, stderr=subprocess.PIPE, timeout=timeout * vcheck.TSCALE, text=True)
     if p.returncode != 0:
         raise vcheck.Broken("h_values failed", (p.stdout[-1500:] + p.stderr[-1500:]))
     return p.stdout
